@@ -113,12 +113,18 @@ def generate(seed, tier):
         for check in checks:
             if check[1] != "IsUnique" and swarm.random() < 0.6:
                 check[1] = "FolderX"
+    second_folder = plugin_folder and swarm.random() < 0.5
+    if second_folder:
+        # a second plug-in folder is imported after the first one; one of its files has the name of a file of the first
+        for field in fields:
+            if swarm.random() < 0.4:
+                field["type"] = "FolderC"
     prelude = None
     if swarm.random() < 0.3:
         # another Cid with the same structure but a wider allowed-characters range is used in the same process first
         prelude = {"allowed": swarm.choice([None, [32, 255]]), "data": rng.choice(sorted(tables))}
     return {"io": simfs.IoConfig.draw(swarm), "cid": spec, "tables": tables, "runs": runs, "prelude": prelude,
-            "plugin_folder": plugin_folder}
+            "plugin_folder": plugin_folder, "second_folder": second_folder}
 
 
 # ---- reference model of the protocol ------------------------------------------------------------
@@ -230,6 +236,11 @@ class FolderXCheck(plugins._RecordingCheck, checks.AbstractCheck):
 }
 
 
+# a second folder: its only file has the same name as a file of the first folder
+PLUGIN_MODULES_2 = {
+    "plug_alpha.py": PLUGIN_MODULES["plug_alpha.py"].replace("FolderAFieldFormat", "FolderCFieldFormat"),
+}
+
 _LATE = {}
 
 
@@ -250,7 +261,7 @@ def _define_late_class(probes):
     probes.append("class-defined-after-first-cid")
 
 
-def _import_plugin_folder(probes):
+def _import_plugin_folder(probes, second=False):
     """Write the plug-in modules to a scratch folder (real disk: import_plugins uses glob and the import system)
     and import them through cutplace - after a Cid has already been created in this process."""
     import os
@@ -265,6 +276,15 @@ def _import_plugin_folder(probes):
             with open(os.path.join(folder, name), "w", encoding="utf-8") as stream:
                 stream.write(source)
     interface.import_plugins(folder)
+    if second:
+        folder2 = folder.replace("plugins-", "plugins2-")
+        if not os.path.isdir(folder2):
+            os.makedirs(folder2)
+            for name, source in sorted(PLUGIN_MODULES_2.items()):
+                with open(os.path.join(folder2, name), "w", encoding="utf-8") as stream:
+                    stream.write(source)
+        interface.import_plugins(folder2)
+        probes.append("second-plug-in-folder-with-same-file-name")
     # the cyclic garbage collector may run at any moment; the simulator lets it run right here, between the
     # import of the folder and the first use of its classes (found the hard way: a flaky harness failure)
     import gc
@@ -311,7 +331,7 @@ def execute(scenario):
     if any(field["type"] == "LateQ" for field in spec["fields"]):
         _define_late_class(probes)
     if scenario.get("plugin_folder"):
-        _import_plugin_folder(probes)
+        _import_plugin_folder(probes, scenario.get("second_folder"))
     status, oracle_cid = lib.call(lib.load_cid, cid_rows(spec), "oracle-cid")
     if status == "exc":
         types = sorted({field["type"] for field in spec["fields"]} | {check[1] for check in spec["checks"]})
@@ -483,9 +503,17 @@ def candidates(scenario):
         yield candidate
     if scenario.get("prelude"):
         yield lib.with_value(scenario, ["prelude"], None)
+    if scenario.get("second_folder"):
+        candidate = copy.deepcopy(scenario)
+        candidate["second_folder"] = False
+        for field in candidate["cid"]["fields"]:
+            if field["type"] == "FolderC":
+                field["type"] = "FolderA"
+        yield candidate
     if scenario.get("plugin_folder"):
         candidate = copy.deepcopy(scenario)
         candidate["plugin_folder"] = False
+        candidate["second_folder"] = False
         for field in candidate["cid"]["fields"]:
             if field["type"].startswith("Folder"):
                 field["type"] = "RecA"
